@@ -15,10 +15,17 @@ UNPACK = 'Avtp_Vss_DeserializeStringArray'
 
 
 def lists(tier):
-    ls = [[], [0], [1], [5], [0, 0], [1, 5, 0], [5, 1, 3], [2, 0, 7, 1]]
+    import itertools
+    ls = [[], [2, 0, 7, 1]]
+    alphabet = [0, 1, 5] if tier != 'thorough' else [0, 1, 2, 3, 255, 256]
+    for n in (1, 2, 3):
+        for combo in itertools.product(alphabet, repeat=n):
+            ls.append(list(combo))
     ls.append([(0, 1, 5)[i % 3] for i in range(300)])          # more than 255 strings
+    ls.append([0] * 256)
     if tier == 'thorough':
         ls.append([65533])
+        ls.append([32767, 32764])
         ls.append([i % 7 for i in range(2000)])
         ls.append([0] * 1000)
     return ls
@@ -235,7 +242,7 @@ def run(ctx, tier, res, tag=''):
                 res.undec(text)
     res.sample({'list_lengths': [1, 5, 0], 'packed_octets': 12, 'pack': 'BE16 length + bytes per string, total recorded',
                 'count': 3, 'unpack_requested': [2, 3, 5], 'verdict': 'lengths and bytes equal; nothing read beyond octet 12'})
-    res.rule = ('per list shape (0..4 strings of lengths 0..7, 300 strings; thorough adds 1000/2000 strings and one 65533-octet string): '
+    res.rule = ('per list shape (every list of 1..3 strings with lengths from {0,1,5} [thorough {0,1,2,3,255,256}], [], [2,0,7,1], 256 empty and 300 mixed strings; thorough adds 1000/2000 strings, 65533 and 32767+32764 octets): '
                 'pack, count and unpack interpreted on exact-extent regions with symbolic string bytes; unpack with requested count '
                 'k-1, k, k+2 and with/without destinations; results must equal the reference packing and no access may leave the '
                 'recorded length or the destinations')
